@@ -32,3 +32,28 @@ Print Assumptions C08_leftover_tokens_rejected.
 Theorem C08_errors_accumulate : forall srclen n fuel ts acc, acc <> [] -> snd (p_statements srclen n fuel ts acc) <> [].
 Proof. exact p_statements_acc. Qed.
 Print Assumptions C08_errors_accumulate.
+
+(** ** expressions: a successful parse consumed exactly the tree's token sequence *)
+From PQL Require Import Spec.Flatten Proofs.ParserSound.
+
+(** Whenever the expression parser returns a tree and no error, the tokens it consumed are the
+    tree's own token sequence ([toks_expr], Spec/Flatten.v: every token accounted for, in order,
+    every recorded position the span of its token; the one freedom is a comma directly before
+    the ')' of a call), and what it leaves is the untouched suffix.  For every fuel, every
+    token list, every nesting depth. *)
+Theorem C08_expr_sound : forall srclen f ts x rest,
+  p_expr srclen f ts = (Some x, rest, []) -> exists used, ts = used ++ rest /\ toks_expr x used.
+Proof. exact p_expr_sound. Qed.
+Print Assumptions C08_expr_sound.
+
+Theorem C08_expr_list_sound : forall srclen f ts xs rest,
+  p_expr_list srclen f ts = (Some xs, rest, []) -> exists used, ts = used ++ rest /\ toks_list xs used /\ xs <> [].
+Proof. exact p_expr_list_sound. Qed.
+Print Assumptions C08_expr_list_sound.
+
+(** "not found" is only ever reported without consuming anything: an optional production that
+    backs out leaves the cursor where it was *)
+Theorem C08_not_found_consumes_nothing : forall srclen f ts x rest e,
+  p_expr srclen f ts = (x, rest, e) -> is_nf e = true -> rest = ts.
+Proof. exact p_expr_nf. Qed.
+Print Assumptions C08_not_found_consumes_nothing.
